@@ -94,10 +94,13 @@ def malform(rng, a):
     return (p, surf, fcadj, th, infl, irr, eff, bunds, zb, flux, dp0, ro0, gs), m
 
 
+_FT = rng_for("flagtypes", "infiltration")
+
+
 def run_py(a):
     p, surf, fcadj, th, infl, irr, eff, bunds, zb, flux, dp0, ro0, gs = a
     try:
-        r = infiltration(p, surf, fcadj.copy(), th.copy(), infl, irr, eff, bunds, zb, flux.copy(), dp0, ro0, gs)
+        r = infiltration(p, surf, fcadj.copy(), th.copy(), infl, irr, eff, flagtype(_FT, bunds), zb, flux.copy(), dp0, ro0, flagtype(_FT, gs))
     except ERRS as e:
         return ["N"], type(e).__name__
     th1, s1, dp, ro, inf, fl = r
